@@ -378,6 +378,25 @@ func runScenario(rng *rand.Rand, store *db.Database, serial uint64, long bool, s
 		if ti == rotAt {
 			rotate()
 		}
+		// the node's own re-observation request makes the watcher observe the transaction again: the message comes in a
+		// second (third, ...) time while its entry is being retried. The schedule and the budget are those of the entry.
+		if (long && ti%700 == 350) || (!long && rng.Intn(12) == 0) {
+			for _, e := range ents {
+				if e.kind == "pending" && !e.injected && e.gone < 0 && len(e.retrans) > 0 {
+					rig.P.VerifHandleMessage(rig.Ctx, e.msg.Pub)
+					for _, o := range rig.DrainSend() {
+						if o.Kind == "obs" {
+							if lb := rig.TakeLoopback(5 * time.Second); lb != nil {
+								rig.P.VerifHandleObservation(rig.Ctx, lb)
+							}
+						}
+					}
+					rig.DrainSend()
+					rig.DrainReq()
+					r.Count("reobservations_of_entries_under_retry", 1)
+				}
+			}
+		}
 		age(gsec)
 		if fillReq {
 			select {
